@@ -685,7 +685,7 @@ def _e2e_oracle(ctx, g, ghosts, tips, depth, obs, walked):
 def run(ctx, scale=1):
     rng = ctx.rng
     b = Batch(ctx)
-    ngraphs = ctx.pick(1500, 12000) * scale
+    ngraphs = ctx.pick(1350, 12000) * scale
     nmax = ctx.pick(12, 16)
     nreal = ctx.pick(40, 200)
     for gi in range(ngraphs):
